@@ -276,6 +276,14 @@ package table
 // =============================================================================================
 //@ props C16
 
+// "the ROA table equals the records announced and not withdrawn": a record is stored once - it is appended to its
+// bucket only after the walk over the entries of the bucket (a range loop: every entry) has passed each of them as
+// different from it, source included
+//@ func (*ROATable).Add
+//@   tag C16
+//@   requires rt != nil && roa != nil
+//@   claims step
+//@   loop 0 step !r.Equal(roa)
 //@ func (*ROA).Equal
 //@   requires roa != nil
 //@   pure
